@@ -786,7 +786,7 @@ def from_patch(prop, name, seed, expect, comment="", rebased=False):
         if line.startswith("+++ b/"):
             file = line[6:]
         elif line.startswith("@@"):
-            cur = {"file": file, "old": "", "new": ""}
+            cur = {"file": file, "old": "", "new": "", "_line": int(_re.match(r"@@ -(\d+)", line).group(1))}
             edits.append(cur)
         elif cur is not None and not line.startswith("\\"):
             if line.startswith("-") and not line.startswith("---"):
@@ -799,6 +799,17 @@ def from_patch(prop, name, seed, expect, comment="", rebased=False):
             elif line.startswith("diff --git"):
                 cur = None
     edits = [e for e in edits if e["old"] != e["new"]]
+    for e in edits:
+        # an anchor that occurs more than once: pick the occurrence nearest to the hunk's line
+        line = e.pop("_line")
+        try:
+            src = open("/repo/" + e["file"]).read()
+        except OSError:
+            continue
+        starts = [m.start() for m in _re.finditer(_re.escape(e["old"]), src)]
+        if len(starts) > 1:
+            lines = [src.count("\n", 0, p) + 1 for p in starts]
+            e["occurrence"] = min(range(len(lines)), key=lambda k: abs(lines[k] - line)) + 1
     M.append({"name": f"{prop}-{name}", "prop": prop, "expect": expect if isinstance(expect, list) else [expect],
               "edits": edits, "canary": False, "comment": comment or ("round-4 seed " + seed)})
 
@@ -863,3 +874,14 @@ mut("C18", "r4-unpack-guard-lowercased", "updater/unpacking.go",
 mut("C02", "r14-delete-resets-meta-after-mark", "database/interface.go",
     "\tr.Meta().Delete()\n", "\tr.Meta().Delete()\n\tif i.options.AlwaysSetRelativateExpiry > 0 {\n\t\tr.Meta().SetRelativateExpiry(i.options.AlwaysSetRelativateExpiry)\n\t}\n",
     "C02-R14|database.(*Interface).Delete / deletion mark")
+
+# A13 over the database layer / config
+clone("C03-r3-put-precheck-ignored", "C02", "r15-put-tolerates-permission-denied", "C02-R15|database.(*Interface).Put / error call:database.Interface.getMeta", "same edit as C03-r3-put-precheck-ignored: a second error class is treated as 'record does not exist yet'")
+mut("C02", "r15-exists-default-false", "database/interface.go",
+    "\t\tdefault:\n\t\t\treturn false, err\n\t\t}\n\t}\n\treturn true, nil", "\t\tdefault:\n\t\t\treturn false, nil\n\t\t}\n\t}\n\treturn true, nil", "C02-R15|database.(*Interface).Exists / error call:database.Interface.Get")
+mut("C02", "r15-fstree-delete-ignores-all-errors", "database/storage/fstree/fstree.go",
+    "\tif err != nil && !errors.Is(err, fs.ErrNotExist) {\n\t\treturn fmt.Errorf(\"fstree: could not delete %s: %w\", dstPath, err)\n\t}", "\tif err != nil && !errors.Is(err, fs.ErrNotExist) && !errors.Is(err, fs.ErrPermission) {\n\t\treturn fmt.Errorf(\"fstree: could not delete %s: %w\", dstPath, err)\n\t}",
+    "C02-R15|database/storage/fstree.(*FSTree).Delete / error call:os.Remove")
+mut("C04", "r11-load-tolerates-permission-error", "config/main.go",
+    "\tif err != nil && !errors.Is(err, fs.ErrNotExist) {\n\t\treturn fmt.Errorf(\"failed to load config file: %w\", err)\n\t}", "\tif err != nil && !errors.Is(err, fs.ErrNotExist) && !errors.Is(err, fs.ErrPermission) {\n\t\treturn fmt.Errorf(\"failed to load config file: %w\", err)\n\t}",
+    "C04-R11|config.start / error call:config.loadConfig")
